@@ -36,7 +36,11 @@ def widen(jobs, by=(1,)):
     return out
 
 
+PRELUDE_OLDER = ["older = ps.SchedulingProblem(name='older_problem', horizon=4)", "older_t = ps.FixedDurationTask(name='older_t', duration=1)",
+                 "ps.ObjectiveMinimizeMakespan()", "ps.ObjectiveMinimizeFlowtime()"]
 MIDSOLVE = {
+    # an older, unrelated problem (two objectives: the weighted-sum path) is solved while this one is being declared
+    "older": "try:\n    ps.SchedulingSolver(problem=older).solve()\nexcept Exception:\n    pass",
     "solve": "try:\n    ps.SchedulingSolver(problem=pb).solve()\nexcept Exception:\n    pass",
     "init": "try:\n    ps.SchedulingSolver(problem=pb).initialize()\nexcept Exception:\n    pass",
 }
@@ -69,6 +73,8 @@ def staged(jobs, stride=1, kinds=("solve",), cuts="alt"):
             kind = kinds[(m + cut) % len(kinds)]
             j2 = copy.deepcopy(j)
             j2["program"]["decls"] = decls[:cut] + [{"k": "raw", "src": MIDSOLVE[kind]}] + decls[cut:]
+            if kind == "older":
+                j2["program"]["prelude"] = list(PRELUDE_OLDER)
             j2["family"] = j.get("family", "") + "+staged-" + kind
             out.append(j2)
     return out
